@@ -187,7 +187,7 @@ def python_job(prog: str, seed: int = 0) -> JobOut:
 
 
 def jobs(tier: str, seed: int):
-    progs = C.corpus(tier, seed, exclude=("csr", "loopycall", "zsr"))     # outside C14's stated fragment
+    progs = C.corpus(tier, seed, exclude=("csr", "loopycall"))     # outside C14's stated fragment
     J = [Job(MOD, "python_job", {"prog": P.name, "seed": seed}, jid=P.name, hard_timeout=900) for P in progs]
     meta = {
         "programs": len(progs),
